@@ -8,6 +8,22 @@ From Gen Require Import Leaf_gen.
 #[local] Open Scope Z_scope.
 Transparent two32 two63 two64 two31.
 
+(* proof style for the round-3 lemmas: one case per comparison of either side, comparisons turned
+   into (in)equalities, equal branches by reflexivity, contradictory ones by lia *)
+Ltac split_ifs :=
+  repeat match goal with |- context [if ?c then _ else _] => destruct c eqn:? end.
+Ltac bool_facts :=
+  repeat match goal with
+  | H : negb _ = true |- _ => apply negb_true_iff in H
+  | H : negb _ = false |- _ => apply negb_false_iff in H
+  | H : (_ <? _) = true |- _ => apply Z.ltb_lt in H
+  | H : (_ <? _) = false |- _ => apply Z.ltb_ge in H
+  | H : (_ <=? _) = true |- _ => apply Z.leb_le in H
+  | H : (_ <=? _) = false |- _ => apply Z.leb_gt in H
+  | H : (_ =? _) = true |- _ => apply Z.eqb_eq in H
+  | H : (_ =? _) = false |- _ => apply Z.eqb_neq in H
+  end.
+
 Lemma in_u64_bounds x : in_u64 x -> 0 <= x < 18446744073709551616.
 Proof. unfold in_u64, two64. auto. Qed.
 
@@ -102,8 +118,8 @@ Lemma node_AvgRT_ok x now : in_i64 (node_sum x now EvRt) ->
   node_AvgRT (node_sum x now EvComplete) (node_sum x now EvRt) = node_avg_rt x now.
 Proof.
   intros Hr. unfold node_AvgRT, node_avg_rt. cbv zeta.
-  destruct (node_sum x now EvComplete <=? 0) eqn:E; [reflexivity|].
-  apply Z.leb_gt in E. rewrite i64_id by (apply quot_in_i64; assumption). reflexivity.
+  split_ifs; bool_facts; try reflexivity; try (exfalso; lia).
+  rewrite i64_id by (apply quot_in_i64; [assumption|lia]). reflexivity.
 Qed.
 
 (* (n *BaseStatNode) MinRT(): the view's float, unchanged *)
@@ -121,6 +137,168 @@ Lemma view_AvgRT_ok a v now :
   view_AvgRT (view_sum a v now EvComplete) (view_sum a v now EvRt) = view_avg_rt a v now.
 Proof. reflexivity. Qed.
 
+(* ---- round 3: the bucket loops of SlidingWindowMetric ------------------------------------------
+   For each of count / GetMaxOfSingleBucket / MinRT / MaxConcurrency two definitions are
+   regenerated: <f>_step = ONE iteration of `for _, w := range satisfiedBuckets` (loop-body mode;
+   w.Value.Load() == nil and the failed type assertion enter as mb_nil / ok, the bucket's counter
+   read as a parameter) and <f>_frame = the whole function with the loop replaced by the parameter
+   loop_fn (what the accumulator starts from, and what is computed from its final value).  The
+   lemmas instantiate loop_fn with the left-to-right iteration of the regenerated step over the
+   model's bucket list and prove the result equal to the model's getter. *)
+
+Definition cont {R C} (x : leaf_flow R C) (d : C) : C :=
+  match x with LContinue c => c | LBreak c => c | LReturn _ => d end.
+
+Notation merge := (g_merge mb_op mb_e).
+
+Lemma mb_get_op ev x y : mb_get ev (mb_op x y) = mb_get ev x + mb_get ev y.
+Proof.
+  unfold mb_get, mb_op. cbn [c_pass c_block c_complete c_error c_rt].
+  destruct (ev =? EvPass); [reflexivity|]. destruct (ev =? EvBlock); [reflexivity|].
+  destruct (ev =? EvComplete); [reflexivity|]. destruct (ev =? EvError); [reflexivity|].
+  destruct (ev =? EvRt); reflexivity.
+Qed.
+
+Lemma mb_get_e ev : mb_get ev mb_e = 0.
+Proof.
+  unfold mb_get, mb_e. cbn [c_pass c_block c_complete c_error c_rt].
+  destruct (ev =? EvPass); [reflexivity|]. destruct (ev =? EvBlock); [reflexivity|].
+  destruct (ev =? EvComplete); [reflexivity|]. destruct (ev =? EvError); [reflexivity|].
+  destruct (ev =? EvRt); reflexivity.
+Qed.
+
+Lemma merge_cons (s : Z * mb) r : merge (s :: r) = mb_op (snd s) (merge r).
+Proof. reflexivity. Qed.
+
+(* count: ret := 0; ret += counter.Get(event) per bucket; return ret *)
+Definition count_loop (ev : Z) (bs : list (Z * mb)) (init : Z) : Z :=
+  fold_left (fun acc s => cont (view_count_step (mb_get ev (snd s)) false true acc) acc) bs init.
+
+(* an iteration with a loaded bucket: the int64 addition *)
+Lemma count_step_eq g acc : cont (view_count_step g false true acc) acc = i64 (acc + g).
+Proof. unfold view_count_step. cbv zeta. split_ifs; try discriminate; reflexivity. Qed.
+
+Lemma merge_get_nonneg ev bs : (forall s, In s bs -> 0 <= mb_get ev (snd s)) -> 0 <= mb_get ev (merge bs).
+Proof.
+  induction bs as [|s r IH]; intros H.
+  - cbn [g_merge fold_right]. rewrite mb_get_e. lia.
+  - rewrite merge_cons, mb_get_op. pose proof (H s (or_introl eq_refl)).
+    pose proof (IH (fun x Hx => H x (or_intror Hx))). lia.
+Qed.
+
+Lemma count_loop_sum ev bs : forall init, 0 <= init ->
+  (forall s, In s bs -> 0 <= mb_get ev (snd s)) ->
+  init + mb_get ev (merge bs) < two63 ->
+  count_loop ev bs init = init + mb_get ev (merge bs).
+Proof.
+  induction bs as [|s r IH]; intros init Hi Hn Hb.
+  - cbn [count_loop fold_left g_merge fold_right]. rewrite mb_get_e. lia.
+  - rewrite merge_cons, mb_get_op in *.
+    pose proof (Hn s (or_introl eq_refl)) as Hs.
+    pose proof (merge_get_nonneg ev r (fun x Hx => Hn x (or_intror Hx))) as Hr.
+    change (count_loop ev (s :: r) init)
+      with (count_loop ev r (cont (view_count_step (mb_get ev (snd s)) false true init) init)).
+    rewrite count_step_eq.
+    rewrite i64_id by (unfold in_i64, two63 in *; lia).
+    rewrite IH; [lia|lia|intros x Hx; apply Hn; right; exact Hx|lia].
+Qed.
+
+(* (m *SlidingWindowMetric) count(event, values) over the model's satisfied buckets = view_sum;
+   guard: counters non-negative and their window sum fits an int64 (the C08 guard) *)
+Theorem view_count_ok a v now ev :
+  (forall s, In s (view_buckets a v now) -> 0 <= mb_get ev (snd s)) ->
+  view_sum a v now ev < two63 ->
+  view_count_frame (count_loop ev (view_buckets a v now)) = view_sum a v now ev.
+Proof.
+  intros Hn Hb. unfold view_count_frame. cbv zeta.
+  rewrite count_loop_sum; [reflexivity|lia|exact Hn|exact Hb].
+Qed.
+
+(* GetMaxOfSingleBucket: curMax := 0; if v > curMax { curMax = v } *)
+Definition max_loop (ev : Z) (bs : list (Z * mb)) (init : Z) : Z :=
+  fold_left (fun acc s => cont (view_maxOfSingleBucket_step acc (mb_get ev (snd s)) false 0 true) acc) bs init.
+
+Lemma max_step_eq g acc : cont (view_maxOfSingleBucket_step acc g false 0 true) acc = Z.max acc g.
+Proof. unfold view_maxOfSingleBucket_step. cbv zeta. split_ifs; bool_facts; try discriminate; cbn [cont]; lia. Qed.
+
+Lemma max_loop_max ev bs : forall init, 0 <= init ->
+  max_loop ev bs init = Z.max init (fold_right (fun s acc => Z.max (mb_get ev (snd s)) acc) 0 bs).
+Proof.
+  induction bs as [|s r IH]; intros init Hi.
+  - cbn [max_loop fold_left fold_right]. lia.
+  - change (max_loop ev (s :: r) init)
+      with (max_loop ev r (cont (view_maxOfSingleBucket_step init (mb_get ev (snd s)) false 0 true) init)).
+    rewrite max_step_eq. cbn [fold_right]. rewrite IH by lia. lia.
+Qed.
+
+Theorem view_maxOfSingleBucket_ok a v now ev :
+  view_maxOfSingleBucket_frame (max_loop ev (view_buckets a v now)) now = view_max_single a v now ev.
+Proof.
+  unfold view_maxOfSingleBucket_frame, view_max_single. cbv zeta. rewrite max_loop_max by lia.
+  assert (H : forall bs : list (Z * mb), 0 <= fold_right (fun s acc => Z.max (mb_get ev (snd s)) acc) 0 bs).
+  { induction bs as [|s r IH]; cbn [fold_right]; lia. }
+  pose proof (H (view_buckets a v now)). lia.
+Qed.
+
+(* MinRT: minRt := DefaultStatisticMaxRt; if v < minRt { minRt = v }; clamp below at 1; float64 *)
+Definition min_loop (bs : list (Z * mb)) (init : Z) : Z :=
+  fold_left (fun acc s => cont (view_MinRT_step (m_minrt (snd s)) false acc 0 true) acc) bs init.
+
+Lemma min_step_eq g acc : cont (view_MinRT_step g false acc 0 true) acc = Z.min acc g.
+Proof. unfold view_MinRT_step. cbv zeta. split_ifs; bool_facts; try discriminate; cbn [cont]; lia. Qed.
+
+Lemma m_minrt_merge_le bs : m_minrt (merge bs) <= DefaultStatisticMaxRt.
+Proof.
+  induction bs as [|s r IH]; [cbn [g_merge fold_right]; unfold mb_e; cbn [m_minrt]; lia|].
+  rewrite merge_cons. unfold mb_op at 1. cbn [m_minrt]. lia.
+Qed.
+
+Lemma min_loop_min bs : forall init, init <= DefaultStatisticMaxRt ->
+  min_loop bs init = Z.min init (m_minrt (merge bs)).
+Proof.
+  induction bs as [|s r IH]; intros init Hi.
+  - cbn [min_loop fold_left g_merge fold_right]. unfold mb_e. cbn [m_minrt]. lia.
+  - change (min_loop (s :: r) init)
+      with (min_loop r (cont (view_MinRT_step (m_minrt (snd s)) false init 0 true) init)).
+    rewrite min_step_eq, merge_cons. unfold mb_op at 1. cbn [m_minrt]. rewrite IH by lia. lia.
+Qed.
+
+Theorem view_MinRT_ok x now :
+  view_MinRT_frame (min_loop (view_buckets (nd_arr x) (nd_view x) now)) now = node_min_rt x now.
+Proof.
+  unfold view_MinRT_frame, node_min_rt, view_min_rt. cbv zeta.
+  rewrite min_loop_min by (unfold DefaultStatisticMaxRt; lia).
+  change (view_merge (nd_arr x) (nd_view x) now) with (merge (view_buckets (nd_arr x) (nd_view x) now)).
+  pose proof (m_minrt_merge_le (view_buckets (nd_arr x) (nd_view x) now)) as Hle.
+  unfold DefaultStatisticMaxRt in Hle.
+  replace (Z.min 60000 (m_minrt (merge (view_buckets (nd_arr x) (nd_view x) now))))
+    with (m_minrt (merge (view_buckets (nd_arr x) (nd_view x) now))) by lia.
+  split_ifs; reflexivity.
+Qed.
+
+(* MaxConcurrency: maxConcurrency := 0; if v > maxConcurrency { maxConcurrency = v } *)
+Definition maxc_loop (bs : list (Z * mb)) (init : Z) : Z :=
+  fold_left (fun acc s => cont (view_MaxConcurrency_step (m_maxc (snd s)) acc false 0 true) acc) bs init.
+
+Lemma maxc_step_eq g acc : cont (view_MaxConcurrency_step g acc false 0 true) acc = Z.max acc g.
+Proof. unfold view_MaxConcurrency_step. cbv zeta. split_ifs; bool_facts; try discriminate; cbn [cont]; lia. Qed.
+
+Lemma maxc_loop_max bs : forall init, 0 <= init -> maxc_loop bs init = Z.max init (m_maxc (merge bs)).
+Proof.
+  induction bs as [|s r IH]; intros init Hi.
+  - cbn. lia.
+  - change (maxc_loop (s :: r) init)
+      with (maxc_loop r (cont (view_MaxConcurrency_step (m_maxc (snd s)) init false 0 true) init)).
+    rewrite maxc_step_eq, merge_cons. unfold mb_op at 1. cbn [m_maxc]. rewrite IH by lia. lia.
+Qed.
+
+Theorem view_MaxConcurrency_ok a v now : 0 <= view_max_conc a v now ->
+  view_MaxConcurrency_frame (maxc_loop (view_buckets a v now)) now = view_max_conc a v now.
+Proof.
+  intros H. unfold view_MaxConcurrency_frame. cbv zeta. rewrite maxc_loop_max by lia.
+  unfold view_max_conc in *. change (view_merge a v now) with (merge (view_buckets a v now)) in *. lia.
+Qed.
+
 Print Assumptions calculateStartTime_ok.
 Print Assumptions calculateTimeIdx_ok.
 Print Assumptions isBucketDeprecated_ok.
@@ -131,3 +309,7 @@ Print Assumptions node_AvgRT_ok.
 Print Assumptions node_MinRT_ok.
 Print Assumptions view_getQPSWithTime_ok.
 Print Assumptions view_AvgRT_ok.
+Print Assumptions view_count_ok.
+Print Assumptions view_maxOfSingleBucket_ok.
+Print Assumptions view_MinRT_ok.
+Print Assumptions view_MaxConcurrency_ok.
